@@ -8,12 +8,12 @@ CHECKS = {
  },
  "C16": {
   "technique": T_PBT + "round trip over generated schemas and tables, independent parsing of the written file, single-fault injection",
-  "text": "save_scsv/read_scsv on generated schemas (95 delimiters, markers incl. '' and Unicode, 1..8 fields over five types, typed and string-form fills, YAML-significant strings, units) and tables (1..10 rows; tiled to 1e4 in thorough) incl. planted fill-equal cells, '---', quotes, delimiter characters: names and typed values round-trip, the marker sits exactly where cell==fill (independent csv parse of the file); terse-schema parser feeds a second family; 17 fault kinds (schema and data, save and read side) must raise SCSVError.",
+  "text": "save_scsv/read_scsv on generated schemas (95 delimiters, markers incl. '' and Unicode, 1..8 fields over five types, typed and string-form fills, YAML-significant strings, units) and tables (1..10 rows; tiled to 1e4 in thorough) incl. planted fill-equal cells and wholly missing rows (numeric tables with tab/comma/semicolon delimiters and empty or short markers), '---', quotes, delimiter characters: names and typed values round-trip, the marker sits exactly where cell==fill (independent csv parse of the file); terse-schema parser feeds a second family; 17 fault kinds (schema and data, save and read side) must raise SCSVError.",
   "note": "Markers that parse as numeric/boolean literals and field names that namedtuple rejects (keywords, leading underscore, duplicates) are outside the generated domain; stated in the rule. Booleans are never written as marker (format spec).",
  },
  "C17": {
-  "technique": T_PBT + "model-based stateful testing (generated save/load/fault sequences against an in-memory model of the archives)",
-  "text": "Operation sequences over a temp directory with two archives: saves (whole file / distinct postfixes) of minerals with arbitrary float64 bit patterns (NaN payloads, inf, -0.0, denormals), loads through Mineral.load into an object of a different grain count and through Mineral.from_file in any order, fault steps (unequal snapshot counts, n_grains mismatch, later snapshot of wrong size, non-.npz names). After every load: phase/fabric/regime/n_grains equal and every snapshot bit-identical to the model; after every step the directory listing matches the model; faults raise ValueError without touching the disk; final sweep reloads everything in reverse order.",
+  "technique": T_PBT + "model-based stateful testing: Hypothesis RuleBasedStateMachine and generated save/load/fault sequences against an in-memory model of the archives",
+  "text": "Operation sequences (from a Hypothesis rule-based state machine with preconditions and a per-step recoverability invariant, and from drawn operation lists; same executor, same replay format) over a temp directory with two archives: saves (whole file / distinct postfixes) of minerals with arbitrary float64 bit patterns (NaN payloads, inf, -0.0, denormals), loads through Mineral.load into an object of a different grain count and through Mineral.from_file in any order, fault steps (unequal snapshot counts, n_grains mismatch, later snapshot of wrong size, non-.npz names). After every load: phase/fabric/regime/n_grains equal and every snapshot bit-identical to the model; after every step the directory listing matches the model; faults raise ValueError without touching the disk; final sweep reloads everything in reverse order.",
   "note": "Whole-file save is modelled as overwrite (numpy.savez). save() under a non-.npz name need not raise; if it raises nothing may be written.",
  },
  "C18": {
@@ -23,13 +23,13 @@ CHECKS = {
  },
  "C19": {
   "technique": T_PBT + "round trip of parameter records, exhaustive preset check against values extracted from source with ast, model-based generation of TOML configurations with single-fault injection",
-  "text": "DefaultParams: frozen, hashable, as_dict round trip with generated overrides. Every preset class of pydrex.mock x every declared value (ast-extracted) by attribute and as_dict (exhaustive). parse_config on TOML generated from a model over 4 input modes x subsets of 15 [parameters] keys x 6 [output] keys x phase lists by name/ordinal in both orders x fabric letters: every omitted optional key takes its documented default, invariants (equal-length lists, fractions sum to 1, enum types); 13 fault kinds must raise ConfigError.",
+  "text": "DefaultParams: frozen, hashable, as_dict round trip with generated overrides. Every preset class of pydrex.mock x every declared value (ast-extracted) by attribute and as_dict (exhaustive). parse_config on TOML generated from a model over 4 input modes x subsets of 15 [parameters] keys x 6 [output] keys x phase lists by name/ordinal in both orders x fabric letters: every omitted optional key takes its documented default (numeric defaults stated in the spec files are pinned in a table), invariants (equal-length lists, fractions sum to 1, enum types); 13 fault kinds must raise ConfigError.",
   "note": "Documented defaults taken from the bundled spec files' comments and DefaultParams.",
  },
  "C20": {
   "technique": T_PBT + "round trips, closed-form oracles, metamorphic permutation/sign-flip invariance",
-  "text": "to_spherical/to_cartesian on points of magnitude 1e-150..1e150 incl. axes, planes and near-pole directions: identity (1e-12, widened by 2e-15/sin(theta) near the poles), phi = atan2(y,x) mod 2pi, theta = acos(z/r). poles(): unit vectors equal to the crystal direction in the external frame with the documented component permutation for the six ref_axes strings. lambert_equal_area: R^2 = 1-|z|, azimuth preserved, closed unit disk, inverse lifting identity. point_density for five kernels, sigma 3..20, axial on/off, 1..300 data, grids 5..41: finite, >=0, grid in the disk, mean >=1 (=1 unclipped), invariant under data permutation and (axial) sign flips.",
-  "note": "Known finding: schmidt_count with no counter within the 1% cap of any datum returns NaN (0/0); that class is checked against the known behaviour only.",
+  "text": "to_spherical/to_cartesian on points of magnitude 1e-150..1e150 incl. axes, planes and near-pole directions: identity (1e-12, widened by 2e-15/sin(theta) near the poles), phi = atan2(y,x) mod 2pi, theta = acos(z/r). poles(): unit vectors equal to the crystal direction in the external frame with the documented component permutation for the six ref_axes strings. lambert_equal_area: R^2 = 1-|z|, azimuth preserved, closed unit disk, inverse lifting identity. point_density for five kernels, sigma 3..20, axial on/off, 1..300 data, grids 5..41: finite, >=0, grid in the disk, mean >=1 (=1 unclipped), equal (1e-9) to the raw kernel estimates on the documented counting grid normalised to unit mean and then clipped, invariant under data permutation and (axial) sign flips.",
+  "note": "Known finding: when the raw estimates average to zero over the grid the normalisation is 0/0 (NaN); that class (zero_grid_mean) is checked against the known behaviour only. Raw estimates are rebuilt with pydrex's own kernel functions, so kernels are trusted, grid and normalisation are checked.",
  },
  "C10": {
   "technique": T_PBT + "differential testing against an einsum reference; texture-independent invariants; metamorphic frame rotation and list reordering; fault injection for malformed inputs",
@@ -38,7 +38,7 @@ CHECKS = {
  },
  "C12": {
   "technique": T_PBT + "closed-form oracles (moduli, percent anisotropy) and metamorphic frame rotation of generated orthorhombic tensors and Voigt averages",
-  "text": "elasticity_components on (a) built-in and generated positive-definite orthorhombic tensors rotated by generated Q: K,G = Voigt invariants, percent anisotropy = norm distance to isotropic part, monoclinic=triclinic=0, squared class percentages add up to anisotropy^2, all percentages frame independent (1e-7), hexagonal axis unit and = +-Q.axis0; (b) Voigt averages of generated textures: frame independence (1e-6); (c) arbitrary symmetric PD matrices: moduli/anisotropy/ranges.",
+  "text": "elasticity_components on (a) built-in and generated positive-definite orthorhombic tensors rotated by generated Q: K,G = Voigt invariants, percent anisotropy = norm distance to isotropic part, monoclinic=triclinic=0, squared class percentages add up to anisotropy^2, all percentages frame independent (1e-7), hexagonal axis unit, = +-Q.axis0 and equal to the coordinate axis of the closest hexagonal approximation, class percentages equal to an own projector-chain decomposition about that axis (1e-7); (b) Voigt averages of generated textures: frame independence (1e-6); (c) arbitrary symmetric PD matrices: moduli/anisotropy/ranges.",
   "note": "Cases with contraction eigenvalue gaps <1e-3*norm or a nearly tied symmetry-axis permutation are excluded and counted (axes ill-conditioned there).",
  },
  "C13": {
